@@ -6,7 +6,7 @@ ID = "C17"
 ML = "mC17"
 HARNESS = "harness/C17.c"
 SRCS = None
-EXTRA_LD = ["-Wl,--wrap=ppoll", "-Wl,--wrap=gettimeofday", "-Wl,--wrap=read"]
+EXTRA_LD = ["-Wl,--wrap=ppoll", "-Wl,--wrap=gettimeofday", "-Wl,--wrap=read", "-Wl,--wrap=waitpid"]
 LEVEL = "proof"
 CASE_TIMEOUT = 0.02
 RULE = ("case = callback table + script over the real toplevel instance (default event loop, mock terminal) under a "
@@ -21,7 +21,8 @@ RULE = ("case = callback table + script over the real toplevel instance (default
         "cancel target state, destroy notifications).")
 ASSUMPTIONS = ["no int overflow in time arithmetic (deadlines within +-2^30 us of the clock)",
                "a callback cancels only watches that are still live (not yet invoked with UNBIND, not cancelled), and not itself while it runs",
-               "malloc does not fail", "the instance is not destroyed and tickit_tick is not re-entered from inside a callback"]
+               "malloc does not fail", "tickit_tick is not re-entered from inside a callback; the application holds one reference and may drop it anywhere (script action d): "
+               "the instance then dies when the running tickit_tick returns (fixes/C18-tick-holds-reference.patch) and the script ends"]
 TRUSTED = ["model coq/LoopDefs.v hand-written after src/tickit.c (with fixes/C17-*.patch applied); specification coq/LoopSpec.v "
            "(priority queue keyed by (deadline, registration number), snapshot semantics of an iteration)",
            "heap-level twin coq/LoopHeap.v (nodes at addresses, checked reads, alloc/free; proved fault- and leak-free, C17_heap_safe): "
@@ -52,6 +53,67 @@ def gen(tier, seed, info):
                         continue
                     n += 1
                     yield "cb1=%s %s %s %s %s" % (",".join(sc) or "-", a, b, c, tails[0])
+    # ---- the application drops its reference (tickit_unref) from a timer / deferred callback, from an
+    #      UNBIND notification, or between iterations: the instance must outlive the running tick
+    ndrop = 0
+    for a in ["t0:0:1", "t0:6:1", "l0:1", "l6:1", "t-1000:2:1"]:
+        for b in ["t0:6:2", "t0:0:2", "l2:2", "t1000:6:2", "wi0:1:6:2", "ws10:6:2", "wp6:2"]:
+            for c in ["", "t0:2:2", "l6:2", "t2000:4:2"]:
+                for body in ["d", "d,t0:0:2", "c1,d", "d,c1", "l0:2,d", "d,d"]:
+                    for tail in ["r0 r0", "r0 t0:0:2 r0", "o r0"]:
+                        ndrop += 1
+                        yield "cb1=%s cb2=- %s %s %s %s" % (body, a, b, c, tail)
+    for v in ["t2000:2:1", "l2:1", "wi1:1:2:1", "ws10:2:1"]:
+        for rest in ["t0:6:2 l6:2", "t1000:6:2"]:
+            ndrop += 2
+            yield "ub1=d,l0:2 cb2=- %s %s c0 r0 r0" % (v, rest)          # the drop happens inside an UNBIND notification, between ticks
+            yield "ub1=d cb2=c0 cb3=- %s %s l0:2 t0:6:3 r0 r0" % (v, rest)  # ... inside one, during a tick
+    for pre in ["t0:6:1 l6:1", "t1000:2:1 wi0:1:6:1", ""]:
+        ndrop += 1
+        yield "cb1=- %s d r0 t0:0:1" % pre                                # between iterations
+    info["drop_reference_cases"] = ndrop
+    n += ndrop
+    # ---- chain cases (coq/LoopChain.v): the walks that run callbacks while they follow a chain --
+    #      process watches (SIGCHLD dispatch with scripted waitpid, children that exited before
+    #      their watch was registered, cancel of the own / next / previous watch from a callback,
+    #      registration from a callback) and signal watches (direct dispatch)
+    nch = 0
+    pbody = ["-", "c0", "c1", "c2", "wp0:3", "wp1:3", "c1,wp2:3", "wp0:3,c2"]
+    for regs in ["wp0:1 wp2:2", "wp2:1 wp6:2 wp0:2", "wp1:1 wp0:2 wp2:1"]:
+        for b1 in pbody:
+            for b2 in ["-", "c0", "c2"]:
+                for ex in ["X0:1", "X0:1 X1:2", "X1:2 X0:1 X2:3", "X2:3", "X3:9 X0:1", "X3:9 X1:2 X0:1"]:
+                    for tail in ["H r0 H", "H H r0", "r0 H c1 H"]:
+                        nch += 1
+                        yield "WP cb1=%s cb2=%s cb3=- %s %s %s" % (b1, b2, regs, ex, tail)
+    for pre in ["X0:4", "X0:4 X1:5", "X1:5"]:
+        for regs in ["wp2:1", "wp2:1 wp6:2", "wp6:1 wp2:2 wp0:1"]:
+            for mid in ["", "c0", "c1", "H"]:
+                for b1 in ["-", "c0", "c1", "wp0:3"]:
+                    nch += 1
+                    yield "WP cb1=%s cb2=- cb3=- %s %s %s r0 X2:6 H r0" % (b1, pre, regs, mid)
+    sbody = ["-", "c0", "c1", "c2", "ws10:0:3", "ws10:1:3", "ws12:2:3", "c1,ws10:0:3", "ws10:1:3,c0"]
+    for regs in ["ws10:0:1 ws10:2:2", "ws10:2:1 ws12:6:2 ws10:0:2", "ws12:1:2 ws10:0:1 ws10:6:1"]:
+        for b1 in sbody:
+            for b2 in ["-", "c0", "c2", "ws10:0:3"]:
+                for tail in ["G10 G10", "G10 G12 G10", "G12 c1 G10"]:
+                    nch += 1
+                    yield "WS cb1=%s cb2=%s cb3=- %s %s" % (b1, b2, regs, tail)
+    # ---- IO cases (coq/LoopIo.v): the dispatch of ready descriptors through the default loop's slot arrays while
+    #      callbacks cancel (own / a later slot's / an earlier slot's watch) and register (reusing a freed slot)
+    nio = 0
+    ibody = ["-", "c0", "c1", "c2", "wi0:1:0:3", "wi1:1:6:3", "c1,wi1:1:0:3", "c2,wi0:1:2:3", "wi1:1:0:3,c0", "c0,c1"]
+    for regs in ["wi0:1:0:1 wi1:1:2:2", "wi0:1:2:1 wi1:1:6:2 wi0:1:0:2", "wi1:1:1:2 wi0:1:0:1 wi1:1:6:1"]:
+        for b1 in ibody:
+            for b2 in ["-", "c0", "c2", "wi0:1:0:3"]:
+                for tail in ["R0:1 R1:1 r0 R0:1 R1:1 r0", "R1:1 r0 R0:1 r0 R0:1 R1:1 r0", "R0:1 r0 c1 R0:1 R1:1 r0",
+                             "r0 c0 wi0:1:4:3 R0:1 R1:1 r0"]:
+                    nio += 1
+                    yield "WI cb1=%s cb2=%s cb3=- %s %s" % (b1, b2, regs, tail)
+    info["io_cases"] = nio
+    n += nio
+    info["chain_cases"] = nch
+    n += nch
     # ---- cancel whose UNBIND notification registers a replacement (re-entrancy of tickit_watch_cancel)
     nub = 0
     repl = ["t-500:0:0", "t0:0:0", "t500:0:0", "t1500:2:0", "t2500:0:0", "t3500:0:0", "l0:0", "l1:0", "l3:0", "wi0:1:4:0",
@@ -181,7 +243,8 @@ def classify(case, obs):
 
 def shrink(case):
     toks = case.split()
-    for i in range(len(toks)):
+    keep = 1 if toks and toks[0] in ("WP", "WS", "WI") else 0      # the model selector is not a shrinkable token
+    for i in range(keep, len(toks)):
         yield " ".join(toks[:i] + toks[i + 1:])
     for i, t in enumerate(toks):
         if (t.startswith("cb") or t.startswith("ub")) and "," in t:
